@@ -773,7 +773,7 @@ func main() {
 
 	// G2 runs concurrently with G1 (it mostly waits for `go build` and subprocesses)
 	g2done := make(chan *g2Result, 1)
-	go func() { g2done <- runG2(c.Seed) }()
+	go func() { g2done <- runG2(c.Seed, c.Quick()) }()
 
 	excl, mask := baselines(c)
 	instMask = mask
@@ -889,6 +889,7 @@ func main() {
 
 	g2 := <-g2done
 	g2.report(c)
+	g2.reportHandlers(c)
 
 	c.Set("g1_programs", total)
 	c.Set("g1_programs_by_family_context", perFam)
@@ -898,6 +899,24 @@ func main() {
 	c.Set("g1_bounds", b)
 	c.Set("g2_cells", g2.Cells)
 	c.Set("g2_cli", g2.Bin)
+	c.Set("g2h_cells", len(g2.HSeen))
+	c.Set("g2h_histories_incl_site", g2.HHists)
+	c.Set("g2h_bounds", g2.HBounds)
+	c.Set("g2h_ops", hopNames())
+	c.Set("g2h_outcome_table_cells", g2.HTable)
+	c.Set("g2_wall_s_incl_cli_build", g2.WallS)
+	if len(g2.HExcluded) > 0 {
+		c.Set("g2h_excluded_ops", g2.HExcluded)
+		c.Assume("G2h: a handler op that does not get through to a normal end on its own (per site and extension, listed in g2h_excluded_ops) is left out of the histories")
+	}
+	hran := 0
+	for _, s := range g2.HSeen {
+		if strings.Contains(s.Obs.Stdout, hMarker) {
+			hran++
+		}
+	}
+	c.Set("g2h_cells_where_a_user_handler_ran", hran)
+	c.Assume("G2h: a cell whose effective handler (PHP's handler stack) calls exit(n) is a control: the script chose its status; every other cell ends with an uncaught throwable and is held to the statement whether or not a user handler is invoked")
 	c.Set("instanceof_mask", mask)
 	c.Assume("repeated identical throws in one run (family d1i): 2 loop iterations or 3 calls of one function, interface chain of 3 extends-levels")
 	c.Assume("G1 is exhaustive only inside the listed alphabets: nesting depth <= 2 (thorough: + depth-3 chains), <= 2 catch clauses per try at depth 1 and <= 1 at depth 2, two loop iterations, one interesting statement per block")
@@ -962,7 +981,7 @@ func replay(c *ev.Check) {
 		}
 		for _, f := range g2.Fails {
 			fmt.Printf("clause %s violated: status=%d stdout=%q stderr=%q\n", f.Clause, f.Obs.Status, f.Obs.Stdout, trunc(f.Obs.Stderr, 300))
-			if strings.Contains(key, ":"+f.Clause) {
+			if strings.Contains(key, ":"+f.Clause) || strings.Contains(key, "+"+f.Clause) {
 				c.Fail(key, f.Clause, 0, cell, "replayed")
 			}
 		}
